@@ -23,9 +23,11 @@ file imports: a source change there breaks the build of this file.
 -/
 import Pandora.Model.C20
 import Pandora.Model.C20Net
+import Pandora.Model.C20Feed
 import Pandora.Spec.C20
 import Pandora.Proofs.C20Conc
 import Pandora.Proofs.C20Scen
+import Pandora.Proofs.C20Feed
 import Pandora.Bridge.C20
 
 namespace Pandora.Props.C20
@@ -304,7 +306,9 @@ the invariant, with `vars` = the variables of THIS step (its own `[next]` user, 
    400) and no call, and leaves the invariant — hence every definition — intact;
 2. any other step makes exactly one call: to the method `M` named by `call = target.TargetService.M`, with the message
    the RENDERED payload decodes to against `M`'s input fields, the metadata = the definition's templates rendered with
-   `vars`, under the configured timeout; and re-establishes the invariant. -/
+   `vars`, under the configured timeout; and re-establishes the invariant. The shot goes on after it unless the step has
+   an `assert/response` postprocessor whose status code the reply does not meet: then (and only then) the shot ends
+   after this call. -/
 theorem C20_scenario_step (c : Cfg) (gun : Nat) (scn : String) (cd : CallDef) (w : World) (sv : ShotVars)
     (hd : namesDistinct c.calls = true) (hw : DefinitionsIntact c w) (hcd : cd ∈ c.calls) (hm : Modelled c cd) :
     (FailingStep cd (stepVars c cd w.iters sv).1 →
@@ -312,11 +316,15 @@ theorem C20_scenario_step (c : Cfg) (gun : Nat) (scn : String) (cd : CallDef) (w
           (o.samples = [sampleText (scn ++ ".t" ++ cd.name) 0] ∨ o.samples = [sampleText (scn ++ ".t" ++ cd.name) 400]) ∧
           DefinitionsIntact c w') ∧
     (¬ FailingStep cd (stepVars c cd w.iters sv).1 →
-        ∃ (w' : World) (sv' : ShotVars) (o : Outcome) (m : String) (fs : List Field) (vals : List (String × Option String)), shootStep .copy c gun scn cd w sv = .ok w' sv' o ∧
+        ∃ (w' : World) (sv' : ShotVars) (o : Outcome) (m : String) (fs : List Field) (vals : List (String × Option String)),
+          (shootStep .copy c gun scn cd w sv =
+            (if assertFails cd (serverCode m (canonMsg fs vals) (renderedMd cd (stepVars c cd w.iters sv).1))
+              then .failed w' o else .ok w' sv' o)) ∧
           (m, fs) ∈ methodTable ∧ cd.call = svc ++ "." ++ m ∧
           decodeFields fs (renderedPayload cd (stepVars c cd w.iters sv).1) = some vals ∧
           o.calls = [callText m (canonMsg fs vals) (mdText (renderedMd cd (stepVars c cd w.iters sv).1)) c.tmo] ∧
-          o.samples.length = 1 ∧ DefinitionsIntact c w') := by
+          o.samples = [sampleText (scn ++ ".t" ++ cd.name)
+            (serverCode m (canonMsg fs vals) (renderedMd cd (stepVars c cd w.iters sv).1))] ∧ DefinitionsIntact c w') := by
   obtain ⟨w', hw', _, hstep⟩ := shootStep_copy c gun scn cd w sv hd hw hcd hm
   constructor
   · intro hf
@@ -345,10 +353,12 @@ theorem C20_scenario_step (c : Cfg) (gun : Nat) (scn : String) (cd : CallDef) (w
         obtain ⟨h1, h2⟩ := specStep_call c scn cd _ m fs vals hb hl hdec
         obtain ⟨hmem, hcall⟩ := lookupMethod_some cd.call m fs hl
         rw [h2] at hstep
-        simp only [if_true] at hstep
-        refine ⟨w', _, _, m, fs, vals, hstep, hmem, hcall, hdec, ?_, ?_, hw'⟩
+        refine ⟨w', svNext cd (specStep c scn cd (stepVars c cd w.iters sv).1).2.2 sv,
+          (specStep c scn cd (stepVars c cd w.iters sv).1).1, m, fs, vals, ?_, hmem, hcall, hdec, ?_, ?_, hw'⟩
+        · rw [hstep]
+          cases assertFails cd (serverCode m (canonMsg fs vals) (renderedMd cd (stepVars c cd w.iters sv).1)) <;> simp
         · rw [h1]
-        · rw [h1]; rfl
+        · rw [h1]
 
 /-- **C20_scenario_shot_ends_at_failure**: a failing step ends ITS shot only: the shot's outcome is what the steps
 before it produced plus the failed sample, whatever steps follow. -/
@@ -404,5 +414,121 @@ example : ¬ FailingStep exGood [(vU, ['1'])] := by
     simp [renderedPayload, exGood, decodeFields, findField, convert, pvalOf, render, lookupVar, vU] at h2
 /-- the hypothesis of `C20_scenario_refines` is met: the specification defines the trace of three shots by two guns -/
 example : (expectedSched exCfg [0, 1, 0] 0 [] []).isSome = true := by decide
+
+
+/-! ### round 3: the provider's reading loop, undecodable lines, the call registry, statuses, pool size -/
+
+open Pandora.Proofs.C20Feed in
+/-- **C20_feed**: for every configuration of the grpc/json provider with a configured number of passes (any limit, any
+chosen cases, continueonerror on or off) and every file — lines that decode, lines that do not, lines too long for the
+scanner — the ammo the reading loop puts on its sink, in order, is: the lines of `passes` passes one after another, up
+to the first line that stops the provider (too long; undecodable without continueonerror), each line contributing ITS
+OWN ammo (`itemOf`: the line decoded on its own if its tag is chosen; the empty invalid ammo for an undecodable line;
+nothing otherwise), cut at the limit. No line's ammo depends on its neighbours, on the pass, or on what the pooled
+object held. The loop itself (condition, body, what follows a pass) is regenerated from the source
+(`Bridge.C20.providerLoopCond_eq`, `providerLoopBody_eq`, `providerAfterPass_eq`, `providerPassPrologue_eq`). -/
+theorem C20_feed (cfg : ProvCfg) (raws : List Raw) (hp : cfg.passes ≠ 0) :
+    (feed cfg raws).1 =
+      takeLim cfg.limit ((((List.replicate cfg.passes raws).flatten).takeWhile (rawOk cfg)).filterMap (itemOf cfg)) ∧
+    Gen.GrpcGun.providerLoopCond = "$*bufio.Scanner0.Scan() && ($recv.Limit == 0 || $int0 < $recv.Limit)" := by
+  refine ⟨?_, Bridge.C20.providerLoopCond_eq⟩
+  have h := runPasses_spec cfg raws hp cfg.passes 0 zeroEntry 0 (by omega) hp
+  have hf : feedFuel cfg = cfg.passes := by simp [feedFuel, hp]
+  unfold feed
+  rw [hf, h]
+  simp [takeRem, takeLim, items, passesRaws]
+
+/-- **C20_feed_isolated**: when no line stops the provider (every line decodes or continueonerror is on, none is too
+long), the sink receives `passes` times the per-line ammo of the file, cut at the limit: in particular an undecodable
+line costs exactly its own (invalid) ammo and changes nothing before or after it, in this pass or a later one. -/
+theorem C20_feed_isolated (cfg : ProvCfg) (raws : List Raw) (hp : cfg.passes ≠ 0) (hok : raws.all (rawOk cfg) = true) :
+    (feed cfg raws).1 = takeLim cfg.limit (passesItems cfg raws cfg.passes) := by
+  rw [(C20_feed cfg raws hp).1]
+  have hall : ∀ k, ((List.replicate k raws).flatten).all (rawOk cfg) = true := by
+    intro k
+    induction k with
+    | zero => simp
+    | succ k ih => simp [List.replicate_succ, hok, ih]
+  rw [Proofs.C20Feed.takeWhile_all _ _ (hall cfg.passes)]
+  congr 1
+  simp [passesItems, List.filterMap_flatten]
+
+/-- **C20_invalid_line**: the ammo an undecodable line is delivered as makes no call and yields exactly one failed sample
+(code 0), whatever the timeout; that the provider resets the pooled object for such a line and that the gun returns
+before the method lookup for an ammo marked invalid is regenerated (`Bridge.C20.ammoDecodeOnError_eq`, `gunInvalidAmmo_eq`). -/
+theorem C20_invalid_line (tmo : Nat) :
+    shootEntry tmo invalidEntry = { calls := [], samples := [sampleText "" 0] } ∧
+    Gen.GrpcGun.ammoDecodeOnError = ["$1.Reset(\"\", \"\", nil, nil)", "return $1, errors.WithStack($error0)"] ∧
+    Gen.GrpcGun.gunInvalidAmmo = "if $0.IsInvalid() { … return=true }; calls inside=0; before the method lookup=true" := by
+  refine ⟨?_, Bridge.C20.ammoDecodeOnError_eq, Bridge.C20.gunInvalidAmmo_eq⟩
+  simp [shootEntry, invalidEntry, zeroEntry, lookupMethod, methodTable, svc]
+
+/-- non-vacuity: a file of a good line, an undecodable line and another good line, two passes, limit 5, continueonerror:
+five ammo, the undecodable line's among them twice … -/
+def exRaws : List Raw :=
+  [.line { tag := some "a", call := some "target.TargetService.Hello" }, .bad, .line { tag := some "b", call := some "c" }]
+example : ((feed { passes := 2, limit := 5, chosen := [], coe := true } exRaws).1.map (·.tag)) = ["a", "", "b", "a", ""] := by decide
+example : exRaws.all (rawOk { passes := 2, limit := 5, chosen := [], coe := true }) = true := by decide
+/-- … without continueonerror the provider stops at it (first pass only, one ammo) -/
+example : ((feed { passes := 2, limit := 5, chosen := [], coe := false } exRaws).1.map (·.tag)) = ["a"] ∧
+    (feed { passes := 2, limit := 5, chosen := [], coe := false } exRaws).2 = Stop.decode := by decide
+/-- chosen cases: only tag b, three passes -/
+example : ((feed { passes := 3, limit := 0, chosen := ["b"], coe := true } exRaws).1.map (·.tag)) = ["b", "b", "b"] := by decide
+
+/-- **C20_registry**: the scenario provider's registry of calls holds every name once, with the LAST definition of
+that name in the file; the scenario theorems (`C20_scenario_init`, `_step`, `_refines`), whose hypothesis is that call
+names are distinct, therefore apply to every configuration after `registry`. -/
+theorem C20_registry (l : List CallDef) :
+    namesDistinct (registry l) = true ∧
+    (∀ n, (registry l).find? (·.name == n) = l.reverse.find? (·.name == n)) ∧
+    Gen.GrpcGun.scenarioCallRegistry =
+      "for $int0, $config.CallConfig0 := range $0.Calls { $map[string]config.CallConfig0[$config.CallConfig0.Name] = $config.CallConfig0 }" :=
+  ⟨Proofs.C20Feed.keepFirst_distinct _, fun n => Proofs.C20Feed.keepFirst_find _ n, Bridge.C20.scenarioCallRegistry_eq⟩
+
+/-- the refinement theorem without any hypothesis on names -/
+theorem C20_scenario_refines_registry (c : Cfg) (sched : List Nat) (tr : List (Nat × Outcome))
+    (h : expectedSched { c with calls := registry c.calls } sched 0 [] [] = some tr) :
+    runSched .copy { c with calls := registry c.calls } sched 0 (initWorld { c with calls := registry c.calls }) [] = .inl (some tr) :=
+  C20_scenario_refines { c with calls := registry c.calls } (C20_registry c.calls).1 sched tr h
+
+def exGoodR : CallDef := { name := "x", call := "c", md := [], payload := [], pre := false }
+example : (registry [{ exGoodR with name := "h", call := "first" }, { exGoodR with name := "g" }, { exGoodR with name := "h", call := "last" }]).map
+    (fun cd => (cd.name, cd.call)) = [("h", "last"), ("g", "c")] := by decide
+
+/-- **C20_status**: the code reported for a call the server refused is `ConvertGrpcStatus` of its status — the table
+regenerated from the source — and a refused call is still exactly one call and one sample: a grpc/json entry that
+reaches the server with an injected fault `f` is reported with `convertStatus f`. -/
+theorem C20_status (tmo : Nat) (e : Entry) (f : Nat) (m : String) (fs : List Field) (vals : List (String × Option String))
+    (hl : lookupMethod e.call = some (m, fs)) (hd : decodeFields fs e.payload = some vals) (hf : faultOf e.md = some f) :
+    shootEntry tmo e = { calls := [callText m (canonMsg fs vals) (mdText e.md) tmo], samples := [sampleText e.tag (convertStatus f)] } ∧
+    convertStatus f = ((Gen.GrpcGun.statusTable.find? (·.1 == f)).map (·.2)).getD Gen.GrpcGun.statusDefault := by
+  refine ⟨?_, by rw [Bridge.C20.statusTable_eq, Bridge.C20.statusDefault_eq]; rfl⟩
+  simp [shootEntry, hl, hd, serverCode, hf]
+
+example : faultOf [("k", "v"), ("X-Fault", "14")] = some 14 ∧ convertStatus 14 = 503 ∧ convertStatus 2 = 500 ∧
+    convertStatus 99 = 500 ∧ faultOf [("x-fault", "014")] = none ∧ faultOf [("x-fault", "0")] = none := by decide
+
+/-- **C20_clients**: the shared client pool has no clients when it is not enabled and at least one when it is, whatever
+`client-number` says (0 and negative numbers mean 1); `C20_instances` and `C20_target` hold for every pool size. -/
+theorem C20_clients (enabled : Bool) (cn : Int) :
+    (enabled = false → effClients enabled cn = 0) ∧ (enabled = true → 1 ≤ effClients enabled cn) ∧
+    (enabled = true → 1 ≤ cn → (effClients enabled cn : Int) = cn) ∧
+    Gen.GrpcGun.poolGuards = ["if !$recv.Conf.SharedClient.Enabled { return nil, nil }",
+      "if $recv.Conf.SharedClient.ClientNumber < 1 { $recv.Conf.SharedClient.ClientNumber = 1 }"] := by
+  refine ⟨?_, ?_, ?_, Bridge.C20.poolGuards_eq⟩
+  · intro h; simp [effClients, h]
+  · intro h
+    by_cases hc : cn < 1
+    · simp [effClients, h, hc]
+    · simp only [effClients, h, hc]; simp; omega
+  · intro h hc
+    have : ¬ cn < 1 := by omega
+    simp only [effClients, h, this]; simp; omega
+
+example : effClients true 0 = 1 ∧ effClients true (-3) = 1 ∧ effClients true 4 = 4 ∧ effClients false 4 = 0 := by decide
+
+/-- non-vacuity of the assertion clause of `C20_scenario_step`: a step demanding status 200 whose reply is 403 -/
+example : assertFails { exGood with assert := 200 } 403 = true ∧ assertFails { exGood with assert := 200 } 200 = false ∧
+    assertFails exGood 403 = false := by decide
 
 end Pandora.Props.C20
